@@ -344,6 +344,8 @@ COMBINATORS = {
     "core::result::Result::map_err": "r_map_err",
     "core::result::Result::or_else": "r_or_else",
     "core::result::Result::unwrap_or_else": "r_unwrap_or_else",
+    # an index loop spelled `(a..b).for_each(|i| ..)`: only for a Range<usize> receiver (see combinators())
+    "core::iter::traits::iterator::Iterator::for_each": "range_for_each",
 }
 
 
@@ -434,6 +436,34 @@ def _expand(prog, rec, b, kind, h):
         return len(m["blocks"]) - 1
 
     goto_tgt = {"k": "goto", "target": tgt, "loc": loc}
+    if kind == "range_for_each":
+        # (a..b).for_each(f)  ==  loop { match Range::next(&mut r) { Some(i) => f(i), None => break } }
+        R, rty = x_op["place"]["local"], x_op["place"]["ty"]
+        oty = "core::option::Option<usize>"
+        r = _new_local(m, oty)
+        rr = _new_local(m, "&mut " + rty)
+        d = _new_local(m, "isize")
+        u = _new_local(m, "()")
+        exit_b = add_block([{"k": "assign", "place": copy.deepcopy(dest), "loc": loc, "rv": {"k": "aggregate", "agg": "tuple", "fields": []}}], dict(goto_tgt))
+        unreach = add_block([], {"k": "unreachable", "loc": loc})
+        head = add_block([], {"k": "goto", "target": 0, "loc": loc})      # patched below
+        payload = {"local": r, "proj": [{"k": "downcast", "variant": "Some", "i": 1}, {"k": "field", "i": 0, "name": "0", "ty": "usize"}], "ty": "usize"}
+        pre = []
+        call = _closure_call(h, env_local, env_ty, [{"k": "move", "place": payload}], {"local": u, "proj": [], "ty": "()"}, head, unwind, loc, m, pre)
+        body_b = add_block(pre, call)
+        calls.append(body_b)
+        chk = add_block([{"k": "assign", "place": {"local": d, "proj": [], "ty": "isize"}, "loc": loc, "rv": {"k": "discriminant", "place": {"local": r, "proj": [], "ty": oty}}}],
+                        {"k": "switch", "discr": {"k": "move", "place": {"local": d, "proj": [], "ty": "isize"}}, "targets": [["0", exit_b], ["1", body_b]], "otherwise": unreach,
+                         "loc": loc, "desugared": "range_for_each"})
+        nx = _ext_fn("<core::ops::range::Range<A> as core::iter::traits::iterator::Iterator>::next", ["usize"])
+        nx["fn"]["short"] = nx["fn"]["rshort"] = "<Range<A> as Iterator>::next"
+        m["blocks"][head]["stmts"] = [{"k": "assign", "place": {"local": rr, "proj": [], "ty": "&mut " + rty}, "loc": loc,
+                                       "rv": {"k": "ref", "mut": True, "bk": "Mut", "place": {"local": R, "proj": [], "ty": rty}}}]
+        m["blocks"][head]["term"] = {"k": "call", "func": nx, "args": [{"k": "move", "place": {"local": rr, "proj": [], "ty": "&mut " + rty}}],
+                                     "dest": {"local": r, "proj": [], "ty": oty}, "arg_drop_impls": [], "arg_user_drop": False, "target": chk, "unwind": unwind, "loc": loc,
+                                     "desugared": "range_for_each"}
+        blk["term"] = {"k": "goto", "target": head, "loc": loc, "desugared": "range_for_each"}
+        return calls
     if kind == "then":
         inner = _opt_inner(dest.get("ty"))
         q = _new_local(m, inner)
@@ -574,6 +604,10 @@ def combinators(prog):
                 kind = COMBINATORS.get(_callee(t))
                 if kind is None or len(t["args"]) != 2 or t["dest"].get("proj"):
                     continue
+                if kind == "range_for_each":
+                    a0 = t["args"][0]
+                    if a0.get("k") not in ("move", "copy") or a0["place"].get("proj") or str(a0["place"].get("ty", "")).replace(" ", "") != "core::ops::range::Range<usize>":
+                        continue
                 h = _closure_of(prog, t["args"][1])
                 if h is None or prog.closures_of(h.short):
                     continue
